@@ -144,7 +144,7 @@ struct VecWorld : World {
         case V_TOARRAY: {
             size_t cnt = (size_t)-1; void *p;
             { InSut s; p = q->toarray(q, &cnt); }
-            if (!p) return R_fail();    // what *size holds after a refused call is not specified
+            if (!p) return R_fail(num((long long)cnt));    // "size: the number of elements is stored" - also when there is nothing to return
             Bytes got((const char *)p, cnt * (size_t)es);
             x.hold(p, got, "vector.toarray");
             return R_ok(num((long long)cnt) + ":" + encs(got));
@@ -235,7 +235,7 @@ Result VecModel::apply(const Op &op) {
     case V_RESIZE: { size_t nm = VecWorld::newmax_of(op, n); if (n > nm) v.resize(nm); return R_ok(); }
     case V_CLEAR: v.clear(); return R_ok();
     case V_SIZE: return R_ok(num((long long)n));
-    case V_TOARRAY: { if (n == 0) return R_fail(); Bytes all; for (auto &e : v) all += e; return R_ok(num((long long)n) + ":" + encs(all)); }
+    case V_TOARRAY: { if (n == 0) return R_fail("0"); Bytes all; for (auto &e : v) all += e; return R_ok(num((long long)n) + ":" + encs(all)); }
     case V_WALK: case V_LOCKEDWALK: { Bytes o; for (auto &e : v) enc(o, e); return R_ok(o + "$"); }
     case V_WALKSHRINK: {
         Bytes out; size_t steps = (size_t)(op.a % 5) + 1, cnt = 0;
